@@ -2606,7 +2606,8 @@ class FileSet:
         # so that only the first of them does group capturing.
         path_placeholders = re.findall(r"{(\w+)}", path)
         duplicated_placeholders = {
-            p: self._remove_group_capturing(p, placeholder[p])
+            # (wrapped in a non-capturing group: the regex may be an alternation)
+            p: "(?:" + self._remove_group_capturing(p, placeholder[p]) + ")"
             for p in path_placeholders if path_placeholders.count(p) > 1
         }
 
